@@ -2995,12 +2995,24 @@ def replace_dilated_convolution(op, arch, nng=None):
     assert len(np.array(pre_block).shape) == 1
     assert np.array(pre_block).shape[0] == 2
 
-    op.attrs.update({'padding': Padding.SAME, "dilation": (1, pre_block[0], pre_block[1], 1)})
-    op.set_output_tensor(post_op.outputs[0])
+    dilated_attrs = {'padding': Padding.SAME, "dilation": (1, pre_block[0], pre_block[1], 1)}
     ppre_op = pre_op.inputs[0].ops[0]
+
+    # This rewrite also sees operators that stay on the CPU. Decide on a copy whether the merged, dilated convolution is
+    # supported, and leave the three operators untouched if it is not
+    merged_op = op.clone("_dilated")
+    merged_op.attrs.update(dilated_attrs)
+    merged_op.inputs[0] = ppre_op.outputs[0]
+    merged_op.outputs = [post_op.outputs[0]]
+    merged_op.set_ifm_ofm_shapes()
+    if not arch.tflite_supported_operators.is_operator_supported(merged_op):
+        return post_op
+
+    op.attrs.update(dilated_attrs)
+    op.set_output_tensor(post_op.outputs[0])
     op.set_input_tensor(ppre_op.outputs[0], 0)
     op.set_ifm_ofm_shapes()
-    op.run_on_npu = arch.tflite_supported_operators.is_operator_supported(op)
+    op.run_on_npu = True
 
     return op
 
